@@ -147,6 +147,11 @@ where
                     crate::verif::point("Accept_Return", s.as_ref().map_or(-1, |x| x.1.port() as i64), 0);
                     match s {
                         Ok((mut stream, _)) => {
+                            // A response must leave as soon as it is written: if it is held back (Nagle) until
+                            //   earlier data is acknowledged, closing the connection while request bytes are
+                            //   still unread resets the connection and the response is never sent.
+                            let _ = stream.set_nodelay(true);
+
                             let cloned_state = self.state.clone();
 
                             // Check that the client is allowed to connect
@@ -236,6 +241,9 @@ where
                  s = socket.accept() => {
                     match s {
                         Ok((mut sock, _)) => {
+                            // See `run`: a response must leave as soon as it is written.
+                            let _ = sock.set_nodelay(true);
+
                             let cloned_state = self.state.clone();
 
                             // Check that the client is allowed to connect
